@@ -411,9 +411,10 @@ func rtpPacket(channel byte, pt byte, seq uint16, payload []byte) *rtp.Packet {
 }
 
 // usable decides "still yields a usable stream": NewStream returns a stream, a
-// consumer can join, a published RTP packet reaches it unchanged, and Close
-// releases the consumer. Waits are 10 s, four orders of magnitude above the
-// normal latency; they only bound a hang.
+// consumer can join and a published RTP packet reaches it unchanged. (Whether
+// Close releases the consumer is property C03's business, not checked here.)
+// The wait is 5 s (below the fuzz engine's own 10 s watchdog), four orders of magnitude above the normal latency; it only
+// bounds a hang.
 func usable(t evid.TB, name string, sdp string, detail any) {
 	s := media.NewStream(nextPath(), sdp)
 	if s == nil {
@@ -435,17 +436,12 @@ func usable(t evid.TB, name string, sdp string, detail any) {
 			evid.Violation(t, name, detail, "consumer received a different packet")
 			return
 		}
-	case <-time.After(10 * time.Second):
+	case <-time.After(5 * time.Second):
 		s.Close()
-		evid.Violation(t, name, detail, "published packet did not reach the consumer within 10 s")
+		evid.Violation(t, name, detail, "published packet did not reach the consumer within 5 s")
 		return
 	}
 	s.Close()
-	select {
-	case <-c.closed:
-	case <-time.After(10 * time.Second):
-		evid.Violation(t, name, detail, "consumer not closed within 10 s after Stream.Close")
-	}
 }
 
 // FuzzParseMetadata: arbitrary SDP text.
